@@ -112,9 +112,8 @@ func c03Options(c cdbConc, init c03Step) *tsdb.Options {
 
 func c03Conc(seed int64, init c03Step) cdbConc {
 	c := cdbMakeConc(seed, init.R, false)
-	// EnableMemorySnapshotOnShutdown: only in the thorough tier (seed%5 == 3); the snapshot is opaque to Crash.tla, so the
-	// trace comparison is skipped for those workloads and only the contents are judged
-	c.Snapshot = c.Snapshot && !verifh.Quick()
+	// EnableMemorySnapshotOnShutdown for seed%5 == 3 (dbMakeConc). The snapshot itself is opaque to Crash.tla: its
+	// sites inside Head.Close are removed from the trace before the comparison (c03DropSnapshot), the kills inside it stay.
 	c.STStorage = false
 	return c
 }
@@ -868,6 +867,23 @@ func c03JudgeDirX(w []c03Step, seed int64, dir string, ackedOp int, what string,
 			}
 		}
 	}
+	// beyond everything that may still be hidden on disk (data of a log that was not replayed in this session)
+	for _, up := range uppers {
+		for _, es := range up {
+			for _, e := range es {
+				if t := conc.tm(e.T); t > maxT {
+					maxT = t
+				}
+			}
+		}
+	}
+	for _, st := range w {
+		if st.A == "Append" {
+			if t := conc.tm(st.T); t > maxT {
+				maxT = t
+			}
+		}
+	}
 	if hm := db.Head().MaxTime(); hm > maxT && hm != math.MinInt64 {
 		maxT = hm
 	}
@@ -937,6 +953,26 @@ func c03JudgeDirX(w []c03Step, seed int64, dir string, ackedOp int, what string,
 		}
 	}
 	return "", "", got
+}
+
+// c03DropSnapshot removes the events of Head.ChunkSnapshot (between the close of the logs and head.close.done) from a
+// projected trace: the write log of the snapshot tmp dir and the rename of the snapshot directory.
+func c03DropSnapshot(tr []string) []string {
+	var out []string
+	inClose := false
+	for _, e := range tr {
+		switch e {
+		case "head.close.mmapped":
+			inClose = true
+		case "head.close.done":
+			inClose = false
+		}
+		if inClose && (strings.HasSuffix(e, "/tmp") || strings.HasPrefix(e, "fileutil.")) {
+			continue
+		}
+		out = append(out, e)
+	}
+	return out
 }
 
 // c03Project keeps the trace lines of modelled sites (site name only) and the op markers.
@@ -1043,8 +1079,11 @@ func TestVerifC03Crash(t *testing.T) {
 				modelled[s] = true
 			}
 			// (T) trace comparison
-			if n := len(cs.W); n > 0 && cs.W[n-1].A == "End" && len(cs.Sites) > 0 && !c03Conc(seedOf(ci), cs.W[0]).Snapshot {
+			if n := len(cs.W); n > 0 && cs.W[n-1].A == "End" && len(cs.Sites) > 0 {
 				real := c03Project(run.trace, modelled)
+				if c03Conc(seedOf(ci), cs.W[0]).Snapshot {
+					real = c03DropSnapshot(real)
+				}
 				if p := os.Getenv("C03_TRACES_OUT"); p != "" {
 					// handed to TLC (Trace_Crash.tla): is this trace a behaviour of Crash.tla for this workload?
 					raw, _ := json.Marshal(map[string]any{"id": ci, "tr": real})
@@ -1088,6 +1127,12 @@ func TestVerifC03Crash(t *testing.T) {
 				for _, p := range pts {
 					if !seen[p.site] {
 						seen[p.site] = true
+						keep = append(keep, p)
+					}
+				}
+				for _, p := range pts {
+					// every Close of the workload: the window between the logs' close and the end of Head.Close
+					if p.hit > 1 && (strings.HasPrefix(p.site, "snapshot.") || p.site == "cdm.closed" || p.site == "head.close.mmapped") {
 						keep = append(keep, p)
 					}
 				}
